@@ -14,6 +14,7 @@ import (
 	"strconv"
 	"strings"
 	"sync"
+	"sync/atomic"
 	"syscall"
 	"time"
 )
@@ -65,14 +66,21 @@ type crash struct {
 }
 
 type supervisor struct {
-	check   Check
-	id      string
-	tier    string
-	seed    int64
-	exe     string
-	workdir string
-	stall   time.Duration
+	check      Check
+	id         string
+	tier       string
+	seed       int64
+	exe        string
+	workdir    string
+	stall      time.Duration
+	deaths     int64 // worker deaths and stalls so far (all batches)
+	freshCases int64 // cases with a violation not listed in known_findings.txt
+	known      map[string]knownFinding
 }
+
+// maxDeaths: after this many worker deaths/stalls the remaining batches are
+// skipped; the run reports what it has (it cannot pass: cases are missing).
+const maxDeaths = 24
 
 func env(name, def string) string {
 	if v := os.Getenv(name); v != "" {
@@ -92,8 +100,12 @@ func Supervise(id, tier string, seed int64) int {
 	exe, _ := os.Executable()
 	s := &supervisor{check: c, id: id, tier: tier, seed: seed, exe: exe,
 		workdir: filepath.Join(Root, "work", id), stall: 30 * time.Second}
+	s.known = loadKnown(id)
 	if rb, ok := c.(RaceBuilt); ok && rb.NeedsRace() {
 		s.stall = 120 * time.Second
+	}
+	if st, ok := c.(Staller); ok {
+		s.stall = time.Duration(st.StallSeconds()) * time.Second
 	}
 	os.RemoveAll(s.workdir)
 	if err := os.MkdirAll(s.workdir, 0o755); err != nil {
@@ -134,7 +146,21 @@ func Supervise(id, tier string, seed int64) int {
 		go func(w int) {
 			defer wg.Done()
 			for j := range jobs {
+				if atomic.LoadInt64(&s.deaths) > maxDeaths {
+					continue // circuit breaker: the tree dies (almost) everywhere
+				}
+				if atomic.LoadInt64(&s.freshCases) > 60 {
+					continue // fail fast: more than enough fresh violations, the run is lost anyway
+				}
 				out := s.runRange(j.lo, j.hi, fmt.Sprintf("w%d", w))
+				for _, r := range out.results {
+					for _, v := range r.Violations {
+						if _, ok := s.known[v.Sig]; !ok {
+							atomic.AddInt64(&s.freshCases, 1)
+							break
+						}
+					}
+				}
 				mu.Lock()
 				agg.add(out)
 				mu.Unlock()
@@ -143,6 +169,9 @@ func Supervise(id, tier string, seed int64) int {
 	}
 	wg.Wait()
 
+	if atomic.LoadInt64(&s.deaths) > maxDeaths {
+		agg.inconclusive = append(agg.inconclusive, fmt.Sprintf("more than %d worker deaths/stalls: remaining batches skipped", maxDeaths))
+	}
 	// confirm crashes and hangs alone
 	hangViol := false
 	if h, ok := c.(HangIsViolation); ok {
@@ -150,7 +179,7 @@ func Supervise(id, tier string, seed int64) int {
 	}
 	sort.Slice(agg.crashes, func(i, j int) bool { return agg.crashes[i].idx < agg.crashes[j].idx })
 	for k, cr := range agg.crashes {
-		if k >= 12 {
+		if k >= 4 {
 			agg.inconclusive = append(agg.inconclusive, fmt.Sprintf("%d further worker deaths not re-run", len(agg.crashes)-k))
 			break
 		}
@@ -168,7 +197,7 @@ func Supervise(id, tier string, seed int64) int {
 	}
 	sort.Ints(agg.hangs)
 	for k, idx := range agg.hangs {
-		if k >= 4 {
+		if k >= 2 {
 			agg.inconclusive = append(agg.inconclusive, fmt.Sprintf("%d further stalls not re-run", len(agg.hangs)-k))
 			break
 		}
@@ -308,8 +337,13 @@ func (s *supervisor) runRange(lo, hi int, tag string) batchOutcome {
 		next := hi
 		if len(out.crashes) > 0 {
 			next = out.crashes[0].idx + 1
+			atomic.AddInt64(&s.deaths, 1)
 		} else if len(out.hangs) > 0 {
 			next = out.hangs[0] + 1
+			atomic.AddInt64(&s.deaths, 1)
+		}
+		if atomic.LoadInt64(&s.deaths) > maxDeaths {
+			break
 		}
 		if next <= lo { // defensive
 			next = lo + 1
@@ -333,6 +367,7 @@ func (s *supervisor) runRangeOnce(lo, hi int, tag string, stall time.Duration) b
 	cmd.Stdout = ef
 	cmd.Stderr = ef
 	cmd.Env = append(os.Environ(), "GOTRACEBACK=all")
+	cmd.SysProcAttr = &syscall.SysProcAttr{Pdeathsig: syscall.SIGKILL} // no orphans if the supervisor is killed
 	if err := cmd.Start(); err != nil {
 		ef.Close()
 		return batchOutcome{crashes: []crash{{lo, "cannot start worker: " + err.Error()}}}
@@ -441,7 +476,7 @@ func readJournal(p string) (started, finished int, ended bool) {
 }
 
 func (s *supervisor) finish(a *agg, n int, wall time.Duration) int {
-	known := loadKnown(s.id)
+	known := s.known
 	knownHits := map[string]int{}
 	knownFirst := map[string]string{}
 	var fresh []violAt
@@ -561,6 +596,11 @@ func (s *supervisor) finish(a *agg, n int, wall time.Duration) int {
 		fmt.Fprintln(os.Stderr, "cannot write evidence:", err)
 		return 2
 	}
+	if exit == 0 && a.cases < n && len(a.crashes)+len(a.hangs) > 0 {
+		// workers died but no death could be confirmed alone: cases are missing, the run cannot pass
+		fmt.Printf("BROKEN-CHECK: property=%s %d of %d cases did not complete (worker deaths not reproducible alone)\n", s.id, n-a.cases, n)
+		return 2
+	}
 	if exit == 0 && (a.evals == 0 || len(a.keys) < 2 || a.cases < n) {
 		fmt.Printf("BROKEN-CHECK: property=%s observed too little (evaluations=%d distinct=%d cases=%d/%d); not passing vacuously\n", s.id, a.evals, len(a.keys), a.cases, n)
 		return 2
@@ -603,9 +643,22 @@ func Worker(id, tier string, seed int64, lo, hi int, journal, outp string) int {
 		fmt.Fprintln(os.Stderr, err)
 		return 2
 	}
+	known := loadKnown(id)
+	freshCases := 0
 	for i := lo; i < hi; i++ {
+		if freshCases >= 5 {
+			// enough witnesses from this batch: on a tree that violates
+			// everywhere (and slowly) the run must still end; it cannot pass
+			break
+		}
 		fmt.Fprintf(jf, "S %d\n", i)
 		r := runGuarded(c, seed, tier, i)
+		for _, v := range r.Violations {
+			if _, ok := known[v.Sig]; !ok {
+				freshCases++
+				break
+			}
+		}
 		b, err := json.Marshal(r)
 		if err != nil {
 			r.Sample = nil
